@@ -4,6 +4,7 @@ mod wl;
 mod io;
 mod known;
 mod lab;
+mod model;
 mod prop;
 mod props;
 mod rng;
